@@ -20,16 +20,22 @@ ChunkSeqs == SeqsUpTo(MaxChunks) \ {<<>>}
 
 (* instances: the buffered sequential writers (xlsx, light xlsx, csv), the compound-file writer of the
    password-protected saves (payload built first, written without the BufCap buffer), a caller-supplied writer *)
-Cfg(mode, ch, ex, bu, bf) == [mode |-> mode, chunks |-> ch, size |-> SumSeq(ch), existed |-> ex, buffered |-> bu,
-                              buildFirst |-> bf]
-PathCfgs == {Cfg("path", ch, ex, i[1], i[2]) : ch \in ChunkSeqs, ex \in BOOLEAN, i \in {<<TRUE, FALSE>>, <<FALSE, TRUE>>}}
-SinkCfgs == {Cfg("sink", ch, FALSE, FALSE, FALSE) : ch \in {s \in ChunkSeqs : PlanMode = "any" \/ SumSeq(s) <= 4}}
+Cfg(mode, ch, ex, bu, bf, st) == [mode |-> mode, chunks |-> ch, size |-> SumSeq(ch), existed |-> ex, buffered |-> bu,
+                                  buildFirst |-> bf, stale |-> st]
+(* a temporary file left by an earlier killed save: none, shorter than / as long as / longer than the new file *)
+Stales(ch) == {0, SumSeq(ch), SumSeq(ch) + 1} \cup (IF SumSeq(ch) > 1 THEN {SumSeq(ch) - 1} ELSE {})
+PathCfgs == UNION {{Cfg("path", ch, ex, i[1], i[2], st) : ex \in BOOLEAN, i \in {<<TRUE, FALSE>>, <<FALSE, TRUE>>}, st \in Stales(ch)}
+                   : ch \in ChunkSeqs}
+SinkCfgs == {Cfg("sink", ch, FALSE, FALSE, FALSE, 0) : ch \in {s \in ChunkSeqs : PlanMode = "any" \/ SumSeq(s) <= 4}}
 
 (* the number of write calls a fault-free save of c makes is at most this *)
 MaxWrites(c) == Len(c.chunks) + 1
 Plans(c) ==
   IF PlanMode = "any" THEN {[t |-> "any"]}
   ELSE IF c.mode = "sink" THEN {[t |-> "none"]}
+  ELSE IF c.stale > 0          \* a left-over temporary file: fault-free, and one fault of each kind
+  THEN {[t |-> "none"], [t |-> "limit", k |-> c.size - 1], [t |-> "failwrite", i |-> 1, sticky |-> TRUE, unlink |-> FALSE],
+        [t |-> "failcall", call |-> "create"], [t |-> "failcall", call |-> "rename"], [t |-> "crash", j |-> 1], [t |-> "crash", j |-> 2]}
   ELSE {[t |-> "none"]}
        \cup {[t |-> "limit", k |-> k] : k \in 0..(c.size - 1)}
        \cup {[t |-> "failwrite", i |-> i, sticky |-> s, unlink |-> u] : i \in 1..MaxWrites(c), s \in BOOLEAN, u \in BOOLEAN}
@@ -74,8 +80,9 @@ MCSpec == MCInit /\ [][MCNext]_mcvars
 View == vars
 
 TypeOK ==
-  /\ disk.dest.k \in {"absent", "old", "new"} /\ disk.tmp.k \in {"absent", "new"}
+  /\ disk.dest.k \in {"absent", "old", "new"} /\ disk.tmp.k \in {"absent", "new", "stale"}
   /\ disk.dest.n \in 0..cfg.size /\ disk.tmp.n \in 0..cfg.size
+  /\ disk.dest.junk = 0 /\ (disk.tmp.junk > 0 => disk.tmp.k = "stale")      \* the temporary file is created empty
   /\ buf \in 0..BufCap /\ pend \in 0..(BufCap + MaxChunk) /\ nxt \in 1..(Len(cfg.chunks) + 1)
   /\ ret \in {"none", "ok", "err", "panic"} /\ failed \in BOOLEAN
   /\ pc \in {"create", "build", "write", "flush", "rename", "cleanup", "return", "done", "crashed"}
